@@ -98,7 +98,7 @@ COMMENT_TEXTS = ["", " plain", " é✓😀 \"quoted\" $x ${y}", "# ## }{)(", " x
 
 
 class Tok:
-    __slots__ = ("text", "kind", "val", "glue_l", "glue_r", "line", "col", "block_open")
+    __slots__ = ("text", "kind", "val", "glue_l", "glue_r", "line", "col", "block_open", "offset")
 
     def __init__(self, text, kind, val="", glue_l=False, glue_r=False):
         self.text = text
@@ -108,6 +108,7 @@ class Tok:
         self.glue_r = glue_r
         self.line = self.col = None
         self.block_open = False
+        self.offset = None
 
 
 class Term:
@@ -461,9 +462,12 @@ def layout_items(em, lay):
     r = Rendered()
     nl = "\r\n" if lay.crlf else "\n"
 
+    nchars = [0]
+
     def write(s):
         nonlocal line, col
         out.append(s)
+        nchars[0] += len(s)
         for ch in s:
             if ch == "\n":
                 line += 1
@@ -558,6 +562,7 @@ def layout_items(em, lay):
                 elif not (prev.glue_r or it.glue_l):
                     write(" ")
         tl, tc = line, col + 1   # position of the token's first character
+        it.offset = nchars[0]
         write(it.text)
         it.line, it.col = tl, tc
         idx_pos[i] = (tl, tc)
